@@ -76,7 +76,8 @@ fn c03_top<T: Sym + IsTop + PartialOrd>() {
 /// C04: lattice_from preserves the value.
 fn c04_from<T: Sym + LatticeFrom<T> + Clone + PartialEq>() {
     let a = T::sym();
-    kani::assert(T::lattice_from(a.clone()) == a, "C04:lattice_from_preserves_value");
+    // C01 as well: container merges adopt values through lattice_from, so their ACI laws rely on it
+    kani::assert(T::lattice_from(a.clone()) == a, "C04+C01:lattice_from_preserves_value");
 }
 
 macro_rules! twins {
